@@ -36,7 +36,13 @@ type ReqSpec struct {
 	End       string   `json:"e"` // how the context ends: cancel | parent | timeout (= nobody ends it, the backend's timeout does)
 	Outcomes  []string `json:"o"` // per delivery: ok | err | bad | panic | pubfail | slow (= ok, but only after the listener finished)
 	ReadAfter bool     `json:"r,omitempty"`
+	// DeadlineMs > 0: the caller's own context carries a deadline (a request-scoped context); the listener ends at the
+	// earlier of this deadline and the backend's ListenForReplyTimeout
+	DeadlineMs int `json:"d,omitempty"`
 }
+
+// percentTexts: handler error texts are data, not printf formats – they reach the caller byte for byte
+var percentTexts = []string{"", " disk is 100% full", " %s", " %d%%", " %!", " 50%", " %v %w %", " %%"}
 
 // ParkSpec: the listener of request Req is held at requestreply.listen.before_send on its Nth arrival (reply channel full
 // when the caller did not read); Cancel: the context is ended while it is held; then it is released.
@@ -495,7 +501,7 @@ func Run(sc Scenario) *Result {
 			rec.Log("hr", ks, is, "r", wh.HexS(v), "-")
 			return Res{V: v}, nil
 		case "err":
-			e := fmt.Sprintf("e%d.%d failed: %x", i, att, sc.Seed&0xff)
+			e := fmt.Sprintf("e%d.%d failed: %x", i, att, sc.Seed&0xff) + percentTexts[(int(sc.Seed&0xffff)+i+att)%len(percentTexts)]
 			rec.Log("hr", ks, is, "r", wh.HexS(v), "="+wh.HexS(e))
 			return Res{V: v}, errors.New(e)
 		case "bad":
@@ -550,6 +556,9 @@ func Run(sc Scenario) *Result {
 			}()
 			is := strconv.Itoa(i)
 			parent, pcancel := context.WithCancel(context.Background())
+			if spec.DeadlineMs > 0 {
+				parent, pcancel = context.WithTimeout(context.Background(), time.Duration(spec.DeadlineMs)*time.Millisecond)
+			}
 			defer pcancel()
 			var sentOnce sync.Once
 			markSent := func() { sentOnce.Do(func() { close(sent[i]) }) }
@@ -1014,7 +1023,7 @@ func (r *Result) ListenerStreams() []string {
 		if t == "" {
 			t = "-"
 		}
-		out = append(out, fmt.Sprintf("lst %s %d %s %s", r.Sc.Token(), i, b01(r.Sc.TimeoutMs > 0), t))
+		out = append(out, fmt.Sprintf("lst %s %d %s %s", r.Sc.Token(), i, b01(r.Sc.TimeoutMs > 0 || r.Sc.Reqs[i].DeadlineMs > 0), t))
 	}
 	return out
 }
@@ -1058,6 +1067,18 @@ func Emit(out *wh.Out, res *Result) {
 	}
 	if sc.NoHook {
 		out.Count("no-finished-hook-configured")
+	}
+	for _, q := range sc.Reqs {
+		if q.DeadlineMs > 0 {
+			switch {
+			case sc.TimeoutMs > 0 && sc.TimeoutMs < q.DeadlineMs:
+				out.Count("caller-deadline.later-than-backend-timeout")
+			case sc.TimeoutMs > 0:
+				out.Count("caller-deadline.earlier-than-backend-timeout")
+			default:
+				out.Count("caller-deadline.no-backend-timeout")
+			}
+		}
 	}
 	if sc.HookWait {
 		out.Count("hook-waits-for-observed-close")
